@@ -15,7 +15,10 @@
    One behaviour = one export of one request that differs from the base request in one field.          *)
 EXTENDS Mon_Export, TLC
 CONSTANTS Alphabet,     \* character classes used for generated strings
-          Work          \* set of <<fmt, field, maxlen>>: which strings are explored for which format / field
+          Work,         \* set of <<fmt, field, maxlen>>: which strings are explored for which format / field
+          Repaired      \* FALSE: export.py as it is.  TRUE: the handler proposed in findings_proposed/C48.md (body always
+                        \* shlex.quote'd, curl --globoff / --data-raw / "-H 'name;'" for empty values / -X whenever a
+                        \* body is sent, CommandError for a header name starting with @)
 VARIABLES done, mon, obs
 vars == <<done, mon, obs>>
 
@@ -25,16 +28,16 @@ Emit(evs) == obs' = evs /\ mon' = FoldEvents(MonStep, mon, evs)
 
 Strings(n) == UNION {[1..k -> Alphabet] : k \in 0..n}
 RECURSIVE Flat(_)
-Flat(ss) == IF ss = <<>> THEN <<>> ELSE Head(ss) \o Flat(Tail(ss))
+Flat(ss) == IF Len(ss) = 0 THEN <<>> ELSE Head(ss) \o Flat(Tail(ss))
 
 ---------------------------------------------------------------------------
 (* export.py *)
-SafeCh == {"a", "pc", "at", "hy", "co", "sl", "S", "C", "H", "P", "oH", "oX", "od", "GET", "POST", "ctn"}   \* [\w@%+=:,./-]
+SafeCh == {"a", "pc", "at", "hy", "co", "sl", "S", "C", "H", "P", "oH", "oX", "od", "GET", "POST", "ctn", "oG", "odr"}   \* [\w@%+=:,./-]
 Ctl == {"nl", "ct"}
 
 \* shlex.quote
 ShlexQuote(s) ==
-  IF s = <<>> THEN <<"sq", "sq">>
+  IF Len(s) = 0 THEN <<"sq", "sq">>
   ELSE IF \A i \in 1..Len(s) : s[i] \in SafeCh THEN s
   ELSE <<"sq">> \o Flat([i \in 1..Len(s) |-> IF s[i] = "sq" THEN <<"sq", "dq", "sq", "dq", "sq">> ELSE <<s[i]>>])
        \o <<"sq">>
@@ -42,33 +45,36 @@ ShlexQuote(s) ==
 \* request_content_for_console: control characters become \xNN; if there was one, wrap in "$(printf ...)"
 Escaped(s) == [i \in 1..Len(s) |-> IF s[i] = "nl" THEN "xnl" ELSE IF s[i] = "ct" THEN "xct" ELSE s[i]]
 ContentForConsole(s) ==
+  IF Repaired THEN ShlexQuote(s) ELSE
   IF \E i \in 1..Len(s) : s[i] \in Ctl
   THEN <<"dq", "dl", "lp", "P", "sp">> \o ShlexQuote(Escaped(s)) \o <<"rp", "dq">>
   ELSE ShlexQuote(Escaped(s))
 
 RECURSIVE JoinSp(_)
-JoinSp(ws) == IF ws = <<>> THEN <<>> ELSE IF Len(ws) = 1 THEN ws[1] ELSE ws[1] \o <<"sp">> \o JoinSp(Tail(ws))
+JoinSp(ws) == IF Len(ws) = 0 THEN <<>> ELSE IF Len(ws) = 1 THEN ws[1] ELSE ws[1] \o <<"sp">> \o JoinSp(Tail(ws))
 
 Url(r) == <<"S">> \o r.host \o <<"sl">> \o r.path
 HeaderArg(r) == r.hname \o <<"co", "sp">> \o r.hval
+CurlHeaderArg(r) == IF Repaired /\ Len(r.hval) = 0 THEN r.hname \o <<"semi">> ELSE HeaderArg(r)
 \* every generated request also carries  content-type: text/plain; charset=utf-8  (ctn: ctv; ctv needs quoting)
 CtArg == <<"ctn", "co", "sp", "ctv">>
 
 \* curl_command (one header; no accept-encoding, no --resolve in the model)
 CurlCommand(r) ==
-  LET args == <<<<"C">>, <<"oH">>, HeaderArg(r), <<"oH">>, CtArg>>
-              \o (IF r.method # <<"GET">>
-                  THEN (IF r.body = <<>> THEN <<<<"oH">>, <<"CL0">>>> ELSE <<>>) \o <<<<"oX">>, r.method>>
+  LET args == (IF Repaired THEN <<<<"C">>, <<"oG">>>> ELSE <<<<"C">>>>)
+              \o <<<<"oH">>, CurlHeaderArg(r), <<"oH">>, CtArg>>
+              \o (IF r.method # <<"GET">> \/ (Repaired /\ Len(r.body) > 0)
+                  THEN (IF Len(r.body) = 0 THEN <<<<"oH">>, <<"CL0">>>> ELSE <<>>) \o <<<<"oX">>, r.method>>
                   ELSE <<>>)
               \o <<Url(r)>>
       cmd == JoinSp([i \in 1..Len(args) |-> ShlexQuote(args[i])])
-  IN IF r.body # <<>> THEN cmd \o <<"sp", "od", "sp">> \o ContentForConsole(r.body) ELSE cmd
+  IN IF Len(r.body) > 0 THEN cmd \o <<"sp", IF Repaired THEN "odr" ELSE "od", "sp">> \o ContentForConsole(r.body) ELSE cmd
 
 \* httpie_command
 HttpieCommand(r) ==
   LET args == <<<<"H">>, r.method, Url(r), HeaderArg(r), CtArg>>
       cmd == JoinSp([i \in 1..Len(args) |-> ShlexQuote(args[i])])
-  IN IF r.body # <<>> THEN cmd \o <<"sp", "lt3", "sp">> \o ContentForConsole(r.body) ELSE cmd
+  IN IF Len(r.body) > 0 THEN cmd \o <<"sp", "lt3", "sp">> \o ContentForConsole(r.body) ELSE cmd
 
 ---------------------------------------------------------------------------
 (* the printf builtin applied to a format string (bash 5): what the emitted format strings rely on *)
@@ -86,10 +92,10 @@ PrintfScan(f, i, acc) ==    \* acc = [out, bad]
          ELSE IF nx \in {"xnl", "xct"} THEN [acc EXCEPT !.bad = TRUE]           \* \ + \xNN reads as \\ then xNN
          ELSE PrintfScan(f, i + 1, [acc EXCEPT !.out = Append(@, "bs")])       \* unknown escape: kept
     ELSE PrintfScan(f, i + 1, [acc EXCEPT !.out = Append(@, c)])
-Printf(f) == IF f # <<>> /\ f[1] = "hy" THEN [out |-> <<>>, bad |-> TRUE]        \* read as an option
+Printf(f) == IF Len(f) > 0 /\ f[1] = "hy" THEN [out |-> <<>>, bad |-> TRUE]        \* read as an option
              ELSE PrintfScan(f, 1, [out |-> <<>>, bad |-> FALSE])
 RECURSIVE StripNl(_)
-StripNl(s) == IF s # <<>> /\ s[Len(s)] = "nl" THEN StripNl(SubSeq(s, 1, Len(s) - 1)) ELSE s   \* $( ) drops them
+StripNl(s) == IF Len(s) > 0 /\ s[Len(s)] = "nl" THEN StripNl(SubSeq(s, 1, Len(s) - 1)) ELSE s   \* $( ) drops them
 
 ---------------------------------------------------------------------------
 (* POSIX shell: split a source text into simple-command words.
@@ -100,14 +106,19 @@ Flush(st) == IF ~st.has THEN st
              ELSE IF st.here THEN [st EXCEPT !.stdin = st.cur, !.hasin = TRUE, !.here = FALSE, !.cur = <<>>, !.has = FALSE]
              ELSE [st EXCEPT !.words = Append(@, st.cur), !.cur = <<>>, !.has = FALSE]
 
-\* index of the ")" that closes a "$(" opened just before position j (quotes respected); 0 if none
+\* index of the ")" that closes a "$(" opened just before position j; q = quoting mode inside the substitution
+\* ("u", "s" in single quotes, "d" in double quotes: a new quoting context starts inside $( )); 0 if none
 RECURSIVE CloseParen(_, _, _)
 CloseParen(src, j, q) ==
   IF j > Len(src) THEN 0
-  ELSE IF q THEN CloseParen(src, j + 1, src[j] # "sq")
-  ELSE IF src[j] = "sq" THEN CloseParen(src, j + 1, TRUE)
+  ELSE IF q = "s" THEN CloseParen(src, j + 1, IF src[j] = "sq" THEN "u" ELSE "s")
+  ELSE IF q = "d" THEN (IF src[j] = "bs" THEN CloseParen(src, j + 2, "d")
+                        ELSE CloseParen(src, j + 1, IF src[j] = "dq" THEN "u" ELSE "d"))
+  ELSE IF src[j] = "sq" THEN CloseParen(src, j + 1, "s")
+  ELSE IF src[j] = "dq" THEN CloseParen(src, j + 1, "d")
+  ELSE IF src[j] = "bs" THEN CloseParen(src, j + 2, "u")
   ELSE IF src[j] = "rp" THEN j
-  ELSE CloseParen(src, j + 1, FALSE)
+  ELSE CloseParen(src, j + 1, "u")
 
 RECURSIVE Scan(_, _)
 Scan(src, st) ==
@@ -122,7 +133,7 @@ Scan(src, st) ==
     ELSE IF st.mode = "d" THEN
          IF c = "dq" THEN Scan(src, [st EXCEPT !.i = @ + 1, !.mode = "u"])
          ELSE IF c = "dl" /\ nx = "lp" THEN
-              LET e == CloseParen(src, st.i + 2, FALSE) IN
+              LET e == CloseParen(src, st.i + 2, "u") IN
               IF e = 0 THEN [st EXCEPT !.inj = TRUE, !.i = Len(src) + 1]
               ELSE LET inner == Scan(SubSeq(src, st.i + 2, e - 1), St0)
                        okcmd == ~inner.inj /\ Len(inner.words) = 2 /\ inner.words[1] = <<"P">> /\ ~inner.hasin
@@ -148,8 +159,10 @@ SplitHeader(w) ==     \* "name: value" -> <<present, name, value>>
   LET k == IF \E i \in 1..Len(w) : w[i] = "co" THEN CHOOSE i \in 1..Len(w) : w[i] = "co" /\ \A j \in 1..(i-1) : w[j] # "co" ELSE 0
       name == IF k = 0 THEN w ELSE SubSeq(w, 1, k - 1)
       raw == IF k = 0 THEN <<>> ELSE SubSeq(w, k + 1, Len(w))
-      val == IF raw # <<>> /\ raw[1] = "sp" THEN Tail(raw) ELSE raw
-  IN <<k # 0 /\ val # <<>> /\ ~(w # <<>> /\ w[1] = "at"), name, val>>
+      val == IF Len(raw) > 0 /\ raw[1] = "sp" THEN Tail(raw) ELSE raw
+      semi == k = 0 /\ Len(w) > 1 /\ w[Len(w)] = "semi"          \* "name;" sends the header with an empty value
+  IN IF semi THEN <<TRUE, SubSeq(w, 1, Len(w) - 1), <<>>>>
+     ELSE <<k # 0 /\ Len(val) > 0 /\ ~(Len(w) > 0 /\ w[1] = "at"), name, val>>
 
 RECURSIVE CurlArgs(_, _, _)
 CurlArgs(ws, i, d) ==   \* d = [method, hasX, url, hdrs, body, hasD]
@@ -159,13 +172,16 @@ CurlArgs(ws, i, d) ==   \* d = [method, hasX, url, hdrs, body, hasD]
        CurlArgs(ws, i + 2, IF ws[i + 1] = <<"CL0">> \/ ~h[1] THEN d ELSE [d EXCEPT !.hdrs = Append(@, <<h[2], h[3]>>)])
   ELSE IF ws[i] = <<"oX">> /\ i < Len(ws) THEN CurlArgs(ws, i + 2, [d EXCEPT !.method = ws[i + 1], !.hasX = TRUE])
   ELSE IF ws[i] = <<"od">> /\ i < Len(ws) THEN CurlArgs(ws, i + 2, [d EXCEPT !.body = ws[i + 1], !.hasD = TRUE])
+  ELSE IF ws[i] = <<"odr">> /\ i < Len(ws) THEN CurlArgs(ws, i + 2, [d EXCEPT !.body = ws[i + 1], !.hasD = TRUE, !.raw = TRUE])
+  ELSE IF ws[i] = <<"oG">> THEN CurlArgs(ws, i + 1, [d EXCEPT !.goff = TRUE])
   ELSE CurlArgs(ws, i + 1, [d EXCEPT !.url = ws[i]])
 CurlDecode(ws) ==
-  LET d == CurlArgs(ws, 2, [method |-> <<>>, hasX |-> FALSE, url |-> <<>>, hdrs |-> <<>>, body |-> <<>>, hasD |-> FALSE])
+  LET d == CurlArgs(ws, 2, [method |-> <<>>, hasX |-> FALSE, url |-> <<>>, hdrs |-> <<>>, body |-> <<>>, hasD |-> FALSE,
+                            raw |-> FALSE, goff |-> FALSE])
   IN [method |-> IF d.hasX THEN d.method ELSE IF d.hasD THEN <<"POST">> ELSE <<"GET">>,
-      url |-> IF \E i \in 1..Len(d.url) : d.url[i] = "lb" THEN <<"globbed">> ELSE d.url,
+      url |-> IF ~d.goff /\ \E i \in 1..Len(d.url) : d.url[i] = "lb" THEN <<"globbed">> ELSE d.url,
       hdrs |-> d.hdrs,
-      body |-> IF d.body # <<>> /\ d.body[1] = "at" THEN <<"file">> ELSE d.body]
+      body |-> IF ~d.raw /\ Len(d.body) > 0 /\ d.body[1] = "at" THEN <<"file">> ELSE d.body]
 
 HttpieDecode(ws) ==
   [method |-> IF Len(ws) >= 2 THEN ws[2] ELSE <<>>,
@@ -185,23 +201,24 @@ Request(field, s) ==
     [] field = "body" -> [Base EXCEPT !.body = s]
     [] field = "getbody" -> [Base EXCEPT !.method = <<"GET">>, !.body = s]
 \* strings the request model can carry (the harness has the same restrictions, see README)
-Admissible(field, s) ==
-  CASE field \in {"method", "host", "hname"} -> s # <<>> /\ (field = "hname" => s[1] # "sp" /\ s[Len(s)] # "sp")
-    [] field = "hval" -> s = <<>> \/ (s[1] # "sp" /\ s[Len(s)] # "sp")
-    [] field = "getbody" -> s # <<>>
-    [] OTHER -> TRUE
+Admissible(field, s) ==     \* IF rather than \/ : inside an action TLC would explore both disjuncts
+  IF field \in {"method", "host"} THEN Len(s) > 0
+  ELSE IF field = "hname" THEN (IF Len(s) = 0 THEN FALSE ELSE s[1] # "sp" /\ s[Len(s)] # "sp")
+  ELSE IF field = "hval" THEN (IF Len(s) = 0 THEN TRUE ELSE s[1] # "sp" /\ s[Len(s)] # "sp")
+  ELSE IF field = "getbody" THEN Len(s) > 0
+  ELSE TRUE
 
 Tags(r) ==
   LET has(c) == \E i \in 1..Len(r.body) : r.body[i] = c
-      all == << <<"body_at", r.body # <<>> /\ r.body[1] = "at">>,
+      all == << <<"body_at", Len(r.body) > 0 /\ r.body[1] = "at">>,
                 <<"body_bs", has("bs")>>,
                 <<"body_ctl", has("nl") \/ has("ct")>>,
-                <<"body_hy", r.body # <<>> /\ r.body[1] = "hy">>,
+                <<"body_hy", Len(r.body) > 0 /\ r.body[1] = "hy">>,
                 <<"body_pct", has("pc")>>,
-                <<"body_trail_nl", r.body # <<>> /\ r.body[Len(r.body)] = "nl">>,
-                <<"get_with_body", r.method = <<"GET">> /\ r.body # <<>>>>,
-                <<"hdr_at", r.hname # <<>> /\ r.hname[1] = "at">>,
-                <<"hdr_empty_value", r.hval = <<>>>>,
+                <<"body_trail_nl", Len(r.body) > 0 /\ r.body[Len(r.body)] = "nl">>,
+                <<"get_with_body", r.method = <<"GET">> /\ Len(r.body) > 0>>,
+                <<"hdr_at", Len(r.hname) > 0 /\ r.hname[1] = "at">>,
+                <<"hdr_empty_value", Len(r.hval) = 0>>,
                 <<"url_glob", \E i \in 1..Len(Url(r)) : Url(r)[i] = "lb">> >>
       sel == SelectSeq(all, LAMBDA t : t[2])
   IN [i \in 1..Len(sel) |-> sel[i][1]]
@@ -212,18 +229,22 @@ Export(fmt, field, s) ==
   /\ Live /\ done' = TRUE
   /\ \E w \in Work : w[1] = fmt /\ w[2] = field /\ Len(s) <= w[3]
   /\ Admissible(field, s)
-  /\ LET r   == Request(field, s)
+  /\ IF Repaired /\ fmt = "curl" /\ field = "hname" /\ s[1] = "at"
+     THEN Emit(<<[k |-> "refused", fmt |-> fmt, exc |-> "CommandError"]>>)
+     ELSE
+     LET r   == Request(field, s)
          src == IF fmt = "curl" THEN CurlCommand(r) ELSE HttpieCommand(r)
          p   == ShParse(src)
          dec == IF fmt = "curl" THEN CurlDecode(p.words) ELSE HttpieDecode(p.words)
-         prog == IF p.words # <<>> /\ p.words[1] = <<"C">> THEN "curl"
-                 ELSE IF p.words # <<>> /\ p.words[1] = <<"H">> THEN "http" ELSE "other"
+         prog == IF Len(p.words) > 0 /\ p.words[1] = <<"C">> THEN "curl"
+                 ELSE IF Len(p.words) > 0 /\ p.words[1] = <<"H">> THEN "http" ELSE "other"
          wantH == <<r.hname, r.hval>>
          wantCt == << <<"ctn">>, <<"ctv">> >>
          hid(h) == IF h = wantH THEN 1 ELSE IF h = wantCt THEN 2 ELSE 3
          gotB == IF fmt = "curl" THEN (IF p.pbad THEN <<"garbled">> ELSE dec.body)
-                 ELSE (IF r.body = <<>> THEN <<>> ELSE <<"with newline">>)      \* <<< appends a newline
-     IN Emit(<<[k |-> "run", fmt |-> fmt, field |-> (IF field = "getbody" THEN "body" ELSE field),
+                 ELSE (IF Len(r.body) = 0 THEN <<>> ELSE IF p.pbad THEN <<"garbled">>
+                       ELSE p.stdin \o <<"nl">>)                                   \* <<< appends a newline
+     IN Emit(<<[k |-> "run", fmt |-> fmt, field |-> (IF field = "getbody" THEN "body" ELSE field), cls |-> s,
                 cmds |-> <<prog>> \o [i \in 1..p.nsub |-> "printf"],
                 nprog |-> IF prog = "other" THEN 0 ELSE 1,
                 other |-> IF p.inj THEN 1 ELSE 0,
@@ -235,16 +256,17 @@ Export(fmt, field, s) ==
 
 \* raw export (assemble_request): the text is the request; admissible strings are those HTTP/1 can carry
 RawAdmissible(field, s) ==
-  CASE field \in {"method", "hname"} -> s # <<>> /\ \A i \in 1..Len(s) : s[i] \notin {"sp", "nl", "ct"}
-    [] field = "path" -> \A i \in 1..Len(s) : s[i] \notin {"nl", "ct"}
-    [] field = "hval" -> (\A i \in 1..Len(s) : s[i] \notin {"nl", "ct"}) /\ (s = <<>> \/ (s[1] # "sp" /\ s[Len(s)] # "sp"))
-    [] field = "body" -> TRUE
-    [] OTHER -> FALSE
+  LET noctl == \A i \in 1..Len(s) : s[i] \notin {"nl", "ct"}
+      nosp == \A i \in 1..Len(s) : s[i] # "sp" IN
+  IF field \in {"method", "hname"} THEN Len(s) > 0 /\ noctl /\ nosp
+  ELSE IF field = "path" THEN noctl
+  ELSE IF field = "hval" THEN noctl /\ (IF Len(s) = 0 THEN TRUE ELSE s[1] # "sp" /\ s[Len(s)] # "sp")
+  ELSE field = "body"
 ExportRaw(field, s) ==
   /\ Live /\ done' = TRUE
   /\ \E w \in Work : w[1] = "raw" /\ w[2] = field /\ Len(s) <= w[3]
   /\ RawAdmissible(field, s)
-  /\ Emit(<<[k |-> "raw", field |-> field, m |-> <<1, 1>>, t |-> <<1, 1>>, v |-> <<1, 1>>,
+  /\ Emit(<<[k |-> "raw", field |-> field, cls |-> s, m |-> <<1, 1>>, t |-> <<1, 1>>, v |-> <<1, 1>>,
              h_w |-> <<1, 2, 3>>, h_g |-> <<1, 2, 3>>, b |-> <<1, 1>>]>>)
 
 MaxLen == CHOOSE n \in {w[3] : w \in Work} : \A w \in Work : w[3] <= n
